@@ -45,6 +45,23 @@ type Op struct {
 	Granter, Grantee, GKind, Exp int64
 	Limit                        *big.Int
 	From, To                     int64
+	// ovm
+	Keys                          []int64
+	LeaderIdx, VoterIdx, PropID, Vote int64
+	// subaccount
+	Owner        int64
+	Locks        [][2]*big.Int // (unlock ts, amount)
+	Inner        int64         // creator named by the inner MsgWager
+	Tk2          Ticket
+	MainDed, SubDed *big.Int
+}
+
+func locksEnc(l [][2]*big.Int) string {
+	s := strconv.Itoa(len(l))
+	for _, x := range l {
+		s += fmt.Sprintf(" %s %s", x[0], x[1])
+	}
+	return s
 }
 
 func b2s(b bool) string {
@@ -94,6 +111,27 @@ func (o Op) Encode() string {
 		return fmt.Sprintf("REVOKE %d %d %d", o.Granter, o.Grantee, o.GKind)
 	case "SEND":
 		return fmt.Sprintf("SEND %d %d %s", o.From, o.To, o.Amount)
+	case "PROP":
+		return fmt.Sprintf("PROP %d %s %d %s", o.Signer, o.Tk.enc(), o.LeaderIdx, ints(o.Keys))
+	case "VOTE":
+		return fmt.Sprintf("VOTE %d %s %d %d %d", o.Signer, o.Tk.enc(), o.VoterIdx, o.PropID, o.Vote)
+	case "SCRE":
+		return fmt.Sprintf("SCRE %d %d %s", o.Signer, o.Owner, locksEnc(o.Locks))
+	case "STOP":
+		return fmt.Sprintf("STOP %d %d %s", o.Signer, o.Owner, locksEnc(o.Locks))
+	case "SWDU":
+		return fmt.Sprintf("SWDU %d", o.Signer)
+	case "SWAG":
+		s := fmt.Sprintf("SWAG %d %s %d %s %d %s %d %d %s %s %s %d %s %s %d", o.Signer, o.Tk.enc(), o.Inner, o.Tk2.enc(), o.BetUID, o.Amount,
+			o.SelMkt, o.SelOdds, o.OddsVal, o.Mult, o.Ky.enc(), o.OddsType, o.MainDed, o.SubDed, len(o.AllOdds))
+		for _, a := range o.AllOdds {
+			s += fmt.Sprintf(" %d %s", a.Odds, a.Mult)
+		}
+		return s
+	case "SDEP":
+		return fmt.Sprintf("SDEP %d %s %d %s %s %d", o.Signer, o.Tk.enc(), o.Mkt, o.Amount, o.Ky.enc(), o.Depositor)
+	case "SWDR":
+		return fmt.Sprintf("SWDR %d %s %d %d %d %s %s %d", o.Signer, o.Tk.enc(), o.Mkt, o.Pidx, o.Mode, o.Amount, o.Ky.enc(), o.Depositor)
 	}
 	panic("unknown op kind " + o.Kind)
 }
@@ -167,6 +205,30 @@ func ParseOp(line string) Op {
 		o.Granter, o.Grantee, o.GKind = r.n(), r.n(), r.n()
 	case "SEND":
 		o.From, o.To, o.Amount = r.n(), r.n(), r.big()
+	case "PROP":
+		o.Signer, o.Tk, o.LeaderIdx, o.Keys = r.n(), r.tk(), r.n(), r.list()
+	case "VOTE":
+		o.Signer, o.Tk, o.VoterIdx, o.PropID, o.Vote = r.n(), r.tk(), r.n(), r.n(), r.n()
+	case "SCRE", "STOP":
+		o.Signer, o.Owner = r.n(), r.n()
+		n := int(r.n())
+		for i := 0; i < n; i++ {
+			o.Locks = append(o.Locks, [2]*big.Int{r.big(), r.big()})
+		}
+	case "SWDU":
+		o.Signer = r.n()
+	case "SWAG":
+		o.Signer, o.Tk, o.Inner, o.Tk2, o.BetUID, o.Amount = r.n(), r.tk(), r.n(), r.tk(), r.n(), r.big()
+		o.SelMkt, o.SelOdds, o.OddsVal, o.Mult, o.Ky, o.OddsType = r.n(), r.n(), r.big(), r.big(), r.ky(), r.n()
+		o.MainDed, o.SubDed = r.big(), r.big()
+		n := int(r.n())
+		for i := 0; i < n; i++ {
+			o.AllOdds = append(o.AllOdds, OddsMult{Odds: r.n(), Mult: r.big()})
+		}
+	case "SDEP":
+		o.Signer, o.Tk, o.Mkt, o.Amount, o.Ky, o.Depositor = r.n(), r.tk(), r.n(), r.big(), r.ky(), r.n()
+	case "SWDR":
+		o.Signer, o.Tk, o.Mkt, o.Pidx, o.Mode, o.Amount, o.Ky, o.Depositor = r.n(), r.tk(), r.n(), r.n(), r.n(), r.big(), r.ky(), r.n()
 	default:
 		panic("unknown op " + o.Kind)
 	}
